@@ -317,9 +317,9 @@ def r5_shared_element_checks(ctx):
         yield o
 
 RULES = [
-    Rule('C03.R1', 'element reports dominated by a fresh add_ele in the same activation', r1_element_attachment, floor=20),
-    Rule('C03.R2', 'walker segment reports dominated by add_seg in the same function', r2_segment_attachment, floor=5),
-    Rule('C03.R3', 'position arguments of add_seg / walk are not crossed; position fields stored by name', r3_positions, floor=10),
-    Rule('C03.R4', 'message/code agreement with the X12 code meanings', r4_codes, floor=20),
-    Rule('C03.R5', 'shared with C15.R3/R6: length atoms measure the right string with the right code; delegated checks always run', r5_shared_element_checks, floor=26),
+    Rule('C03.R1', 'element reports dominated by a fresh add_ele in the same activation', r1_element_attachment, floor=15),
+    Rule('C03.R2', 'walker segment reports dominated by add_seg in the same function', r2_segment_attachment, floor=3),
+    Rule('C03.R3', 'position arguments of add_seg / walk are not crossed; position fields stored by name', r3_positions, floor=7),
+    Rule('C03.R4', 'message/code agreement with the X12 code meanings', r4_codes, floor=15),
+    Rule('C03.R5', 'shared with C15.R3/R6: length atoms measure the right string with the right code; delegated checks always run', r5_shared_element_checks, floor=19),
 ]
